@@ -243,3 +243,19 @@ func setFlagsVia(fl slog.Flags, variant int) {
 		panic(fmt.Sprintf("setFlagsVia(%d): flags are %d, want %d", variant, int64(slog.GetFlags()), int64(fl)))
 	}
 }
+
+// refDefaultLayout is the reference for "the layout selected by the date/time/microseconds flags"
+// (documented meaning of the three flags; exported layout constants of the package).
+func refDefaultLayout() string {
+	switch slog.GetFlags() & slog.Ldatetimeflags {
+	case slog.Ldate:
+		return "2006-01-02"
+	case slog.Ltime:
+		return slog.TimeNoNano
+	case slog.Ldate | slog.Ltime:
+		return slog.DateTime
+	case slog.Ldate | slog.Ltime | slog.Lmicroseconds, slog.Ldate | slog.Lmicroseconds:
+		return slog.RFC3339Nano
+	}
+	return slog.TimeNano
+}
